@@ -128,7 +128,13 @@ fn pt3(r: &mut Rng) -> Pt3 {
         _ => Pt3::new(num_f(r), num_f(r), num_f(r)),
     }
 }
-fn indices(r: &mut Rng) -> Indices { let n = r.below(6); Indices::from_indices((0..n).map(|_| u(r)).collect()) }
+/// a list in which, one time in three, elements repeat (next to each other and apart): emission must write every element
+fn rep_list<T: Clone>(r: &mut Rng, n: u64, mut g: impl FnMut(&mut Rng) -> T) -> Vec<T> {
+    let repeats = r.below(3) == 0; let mut v: Vec<T> = Vec::new();
+    for _ in 0..n { let x = if repeats && !v.is_empty() && r.coin() { if r.coin() { v[v.len() - 1].clone() } else { v[r.below(v.len() as u64) as usize].clone() } } else { g(r) }; v.push(x); }
+    v
+}
+fn indices(r: &mut Rng) -> Indices { let n = r.below(6); Indices::from_indices(rep_list(r, n, u)) }
 fn pathsg(r: &mut Rng) -> Paths { let n = r.below(5); Paths::from_paths((0..n).map(|_| indices(r)).collect()) }
 
 pub const N_KINDS: u64 = 25;
@@ -137,7 +143,7 @@ pub fn gen_op(r: &mut Rng, kind: u64, colors: &[ScadColor]) -> ScadOp {
         0 => ScadOp::Union, 1 => ScadOp::Difference, 2 => ScadOp::Intersection, 3 => ScadOp::Hull,
         4 => ScadOp::Circle { radius: num_f(r), fa: { let v = num_f(r); opt(r, v) }, fs: { let v = num_f(r); opt(r, v) }, fn_: { let v = u(r); opt(r, v) } },
         5 => ScadOp::Square { size: pt2(r), center: r.coin() },
-        6 => ScadOp::Polygon { points: { let n = r.below(6); Pt2s::from_pt2s((0..n).map(|_| pt2(r)).collect()) }, paths: { let p = pathsg(r); opt(r, p) }, convexity: u(r) },
+        6 => ScadOp::Polygon { points: { let n = r.below(6); Pt2s::from_pt2s(rep_list(r, n, pt2)) }, paths: { let p = pathsg(r); opt(r, p) }, convexity: u(r) },
         7 => ScadOp::Text { text: string(r), size: num_f(r), font: string(r),
                 halign: *r.pick(&[TextHalign::left, TextHalign::center, TextHalign::right]),
                 valign: *r.pick(&[TextValign::top, TextValign::center, TextValign::baseline, TextValign::bottom]),
@@ -149,7 +155,7 @@ pub fn gen_op(r: &mut Rng, kind: u64, colors: &[ScadColor]) -> ScadOp {
         11 => ScadOp::Cube { size: pt3(r), center: r.coin() },
         12 => ScadOp::Cylinder { height: num_f(r), radius1: num_f(r), radius2: num_f(r), center: r.coin(),
                 fa: { let v = num_f(r); opt(r, v) }, fs: { let v = num_f(r); opt(r, v) }, fn_: { let v = u(r); opt(r, v) } },
-        13 => ScadOp::Polyhedron { points: { let n = r.below(7); Pt3s::from_pt3s((0..n).map(|_| pt3(r)).collect()) }, faces: pathsg(r), convexity: u(r) },
+        13 => ScadOp::Polyhedron { points: { let n = r.below(7); Pt3s::from_pt3s(rep_list(r, n, pt3)) }, faces: pathsg(r), convexity: u(r) },
         14 => ScadOp::LinearExtrude { height: num_f(r), center: r.coin(), convexity: u(r), twist: num_f(r), scale: pt2(r),
                 slices: { let v = u(r); opt(r, v) }, fn_: { let v = u(r); opt(r, v) } },
         15 => ScadOp::RotateExtrude { angle: num_f(r), convexity: u(r), fa: { let v = num_f(r); opt(r, v) }, fs: { let v = num_f(r); opt(r, v) }, fn_: { let v = u(r); opt(r, v) } },
